@@ -43,6 +43,7 @@ type wspec struct {
 }
 
 type foundV struct {
+	run  int
 	e    int
 	cold bool
 	race bool
@@ -161,7 +162,7 @@ func runWorker(a *aggT, s wspec, tier string, seed uint64, deadline int64, sites
 			b, _ := os.ReadFile(l)
 			txt += string(b)
 		}
-		a.found = append(a.found, foundV{e: last.E, race: true, plan: last.Plan, log: txt,
+		a.found = append(a.found, foundV{e: last.E, run: last.Run, race: true, plan: last.Plan, log: txt,
 			v: Violation{Property: "C15", Oracle: "race-report", Where: fmt.Sprintf("episode %d run %d", last.E, last.Run), Detail: raceSummary(txt), Signature: "race-report:" + raceSummary(txt)}})
 	case err != nil || !done:
 		a.failed = append(a.failed, fmt.Sprintf("worker (race=%v, w=%d) ended abnormally: err=%v completed=%v (watchdog, crash or unsupported blocking construct)", s.race, s.w, err, done))
@@ -628,22 +629,34 @@ func check(tier string) int {
 		}
 		seen[f.v.Oracle] = true
 		rf := &ReplayFile{Property: "C15", Oracle: f.v.Oracle, Engine: "consim", Tier: tier, Seed: seed, EpisodeIndex: f.e, TreeHash: tree, SiteTable: st.Hash, Race: f.race,
-			Episode: genEpisode(seed, f.e, thorough), Plan: f.plan, RaceReport: f.log, Cold: f.cold}
+			Episode: genEpisode(seed, f.e, thorough), Plan: f.plan, RaceReport: f.log, Cold: f.cold, RunIndex: f.run}
 		if f.cold {
 			rf.Episode = genColdEpisode(seed, f.e)
 		}
 		v := f.v
 		rf.FirstDivergence = &v
 		ok := false
-		for try := 0; try < 3 && !ok; try++ {
+		tries := 3
+		if f.v.Oracle == "race-report" {
+			tries = 6
+		}
+		for try := 0; try < tries && !ok; try++ {
 			ok = reproducesN(rf, sites, 1)
 		}
-		if !ok {
+		min := rf
+		if !ok && f.v.Oracle == "race-report" && f.log != "" {
+			// A race report is never a false positive and its text (both stacks) is
+			// in the replay file. The schedule replays exactly; whether the detector
+			// still remembers the older access does not. Reported, not minimised.
+			fmt.Fprintf(os.Stderr, "consim: note: the race report of episode %d did not recur in %d fresh executions of the same schedule (detector shadow-memory eviction); reporting it with the original report attached\n", f.e, tries)
+			rf.BestEffort = true
+		} else if !ok {
 			fmt.Fprintf(os.Stderr, "consim: episode %d reported %s but a fresh-process replay did not reproduce it\n", f.e, f.v.String())
 			unconfirmed++
 			continue
+		} else {
+			min = minimiseReplay(rf, sites, 120*time.Second)
 		}
-		min := minimiseReplay(rf, sites, 120*time.Second)
 		path := filepath.Join(envOr("VERIF_REPLAY_DIR", filepath.Join(root, "replays")), fmt.Sprintf("C15-%d-%d-%s.json", seed, f.e, f.v.Oracle))
 		if err := core.WriteJSON(path, min); err != nil {
 			fail2("cannot write replay: %v", err)
